@@ -13,7 +13,8 @@ from ..core import JobResult, job_seed
 TEXTS = ["", "hello", "Hello World", "MiXeD cAsE", "abc", "a", "UPPER", "lower", "x y  z", "  padded  ", "\tTab", "trail \t",
          "été", "日本語", "éa", "ß", "a-b_c", "aaa", "aaaa", "abcabc", "12", "007", "-5", "3.5", "1e3", "q.tar.gz",
          "co,mma", "semi;colon", "ÀÉÎ", "Ωmega", "naïve café", "one two three", "x"]
-NUMS = ["0", "1", "2", "5", "7", "10", "16", "255", "1000", "65536", "123456789", "9223372036854775807", "2.5", "0.5",
+NUMS = ["0", "1", "2", "5", "7", "10", "16", "255", "1000", "65536", "123456789", "9223372036854775807", "9007199254740993",
+        "4611686018427387905", "2.5", "0.5",
         "-3", "-2.5", "100"]
 HUGE = ["1e30", "99999999999999999999", "-99999999999999999999"]
 DATES = ["2020-02-29", "2021-12-31", "2022-01-01", "1999-12-31", "2024-03-03", "2023-06-30", "2021-03-01", "2000-02-29",
